@@ -499,7 +499,7 @@ theorem genLevels_of_model (M : MClass) (hok : M.Ok) (script : List Op) (hwf : M
     ∀ (g t : Nat) (gs : GroupSt), t ≤ script.length → (M.get (W script t))[g]? = some gs →
       ∃ ri rop ls, genLevels M.C script (g + 1) g t = some (ri, gs.pre, ls) ∧
         gs.mw = (ls.map (·.1)).flatten ∧
-        script[ri]? = some rop ∧ (M.C.root rop).isSome ∧ gs.owner = M.rootOwner (W script ri) rop := by
+        script[ri]? = some rop ∧ (M.C.root rop).isSome ∧ gs.owner = M.rootOwner (W script ri) rop ∧ ri < t := by
   intro g
   induction g using Nat.strongRecOn with
   | _ g ih =>
@@ -524,7 +524,7 @@ theorem genLevels_of_model (M : MClass) (hok : M.Ok) (script : List Op) (hwf : M
       rw [hr] at hd
       simp only [] at hd ⊢
       refine ⟨i, op, [(hs ++ (splitAt script (M.C.useSel g) t).1, (splitAt script (M.C.useSel g) t).2)],
-        ?_, ?_, hop, by rw [hr]; rfl, by rw [hd]⟩
+        ?_, ?_, hop, by rw [hr]; rfl, by rw [hd], hit⟩
       · rw [hd]; rfl
       · rw [hd]; simp [splitAt_fst]
     | none =>
@@ -540,12 +540,12 @@ theorem genLevels_of_model (M : MClass) (hok : M.Ok) (script : List Op) (hwf : M
         have hpg : p < g := by
           have := (hwf i op hop).1 p seg hs hsb
           omega
-        obtain ⟨ri, rop, ls, h1, h2, h3, h4, h5⟩ := ih p hpg i ps (Nat.le_of_lt hil) hps
+        obtain ⟨ri, rop, ls, h1, h2, h3, h4, h5, h6⟩ := ih p hpg i ps (Nat.le_of_lt hil) hps
         have h1' := genLevels_fuel_mono M.C script (p + 1) g p i _ h1 (by omega)
         rw [h1']
         simp only [Option.bind_some]
         refine ⟨ri, rop, ls ++ [(hs ++ (splitAt script (M.C.useSel g) t).1, (splitAt script (M.C.useSel g) t).2)],
-          ?_, ?_, h3, h4, by rw [hgs]; exact h5⟩
+          ?_, ?_, h3, h4, by rw [hgs]; exact h5, by omega⟩
         · rw [hgs]; rfl
         · rw [hgs]; simp [splitAt_fst, h2]
 
@@ -724,7 +724,7 @@ inductive RStep (w : World) (op : Op) (rs' : List RouterSt) : Prop
   | same : routeRecOf w op = none → (∀ r', selUse r' op = none) → op ≠ .newRouter → (∀ r, op ≠ .warmup r) →
       rs' = w.routers → RStep w op rs'
 
-def isMount : Op → Bool | .mount .. => true | _ => false
+abbrev isMount := isMountOp
 
 theorem rstep (w : World) (op : Op) (hm : isMount op = false) : RStep w op (apply w op).routers := by
   cases op with
@@ -736,7 +736,7 @@ theorem rstep (w : World) (op : Op) (hm : isMount op = false) : RStep w op (appl
     refine .use 0 hs (by simp [selUse]) ?_ rfl rfl
     intro r' hr'; simp [selUse]; exact hr'
   | warmup r => exact .warm r rfl rfl
-  | mount => simp [isMount] at hm
+  | mount => simp [isMount, isMountOp] at hm
   | group r seg hs => exact .same rfl (fun _ => rfl) (by simp) (by simp) rfl
   | guse g hs => exact .same rfl (fun _ => rfl) (by simp) (by simp) rfl
   | version r v => exact .same rfl (fun _ => rfl) (by simp) (by simp) rfl
@@ -793,7 +793,7 @@ theorem rstep (w : World) (op : Op) (hm : isMount op = false) : RStep w op (appl
           obtain ⟨r, ver⟩ := x
           exact .route r { ver := some ver, path := p.pre ++ [seg], hs := p.mw ++ (b ++ [h] ++ a) } (by simp [routeRecOf, hg, hv]) (fun _ => rfl) (by simp [apply, hg, hv, World.addRouteOn])
 
-def isNewRouter : Op → Bool | .newRouter => true | _ => false
+abbrev isNewRouter := isNewRouterOp
 
 /-- the node `RegisterRoute` writes when it runs at time `treg` -/
 def regRec (script : List Op) (r treg : Nat) (rec0 : RouteRec) : RouteRec :=
@@ -988,19 +988,19 @@ theorem routers_length (script : List Op) (hnm : NoMount script) :
     have hcnt := cnt_succ isNewRouter script t htl
     have ih' := ih (Nat.le_of_lt htl)
     cases hs with
-    | new h1 h2 => rw [h2, hcnt, h1]; simp [isNewRouter, ih']; omega
+    | new h1 h2 => rw [h2, hcnt, h1]; simp [isNewRouter, isNewRouterOp, ih']; omega
     | use r hs h1 h2 h3 h4 =>
       have : isNewRouter script[t] = false := by
-        cases hop : script[t] <;> simp [isNewRouter] <;> rw [hop] at h1 <;> simp [selUse] at h1
+        cases hop : script[t] <;> simp [isNewRouter, isNewRouterOp] <;> rw [hop] at h1 <;> simp [selUse] at h1
       rw [h3, modifyAt_length, hcnt, this, ih']; simp
-    | warm r h1 h2 => rw [h2, modifyAt_length, hcnt, h1, ih']; simp [isNewRouter]
+    | warm r h1 h2 => rw [h2, modifyAt_length, hcnt, h1, ih']; simp [isNewRouter, isNewRouterOp]
     | route r rec h1 h2 h3 =>
       have : isNewRouter script[t] = false := by
-        cases hop : script[t] <;> simp [isNewRouter] <;> rw [hop] at h1 <;> simp [routeRecOf] at h1
+        cases hop : script[t] <;> simp [isNewRouter, isNewRouterOp] <;> rw [hop] at h1 <;> simp [routeRecOf] at h1
       rw [h3, modifyAt_length, hcnt, this, ih']; simp
     | same h1 h2 h3 h4 h5 =>
       have : isNewRouter script[t] = false := by
-        cases hop : script[t] <;> simp [isNewRouter]
+        cases hop : script[t] <;> simp [isNewRouter, isNewRouterOp]
         exact h3 hop
       rw [h5, hcnt, this, ih']; simp
 
@@ -1144,11 +1144,7 @@ theorem matchLevels_musts (ls : List Level) (hs : List Hid) :
 
 /-! ### a declared route, model vs oracle -/
 
-/-- the path segment a declaring op gives its route -/
-def routeSeg : Op → Option Nat
-  | .route _ seg _ => some seg
-  | .aroute _ seg _ _ _ => some seg
-  | _ => none
+abbrev routeSeg := routeSegOf
 
 /-- well-formed script: every reference points to an object that exists already, and no two
     routes are declared with the same path segment (the harness numbers them) -/
@@ -1238,7 +1234,7 @@ theorem routeInfo_of_model (script : List Op) (hwf : WF script) (i : Nat) (op : 
     | group g =>
       simp [routeRecOf] at hrec
       obtain ⟨p, hp, rfl, rfl⟩ := hrec
-      obtain ⟨ri, rop, ls, h1, h2, h3, h4, h5⟩ := genLevels_of_model groupM groupM_ok script hwf.g g i p hile hp
+      obtain ⟨ri, rop, ls, h1, h2, h3, h4, h5, _⟩ := genLevels_of_model groupM groupM_ok script hwf.g g i p hile hp
       refine ⟨ls, hs, ?_, by simp [h2]⟩
       simp only [routeInfo, hi]
       show (genLevels groupC script (g + 1) g i).bind _ = _
@@ -1292,7 +1288,7 @@ theorem routeInfo_of_model (script : List Op) (hwf : WF script) (i : Nat) (op : 
     | agroup g =>
       simp [routeRecOf] at hrec
       obtain ⟨p, hp, rfl, rfl⟩ := hrec
-      obtain ⟨ri, rop, ls, h1, h2, h3, h4, h5⟩ := genLevels_of_model agroupM agroupM_ok script hwf.ag g i p hile hp
+      obtain ⟨ri, rop, ls, h1, h2, h3, h4, h5, _⟩ := genLevels_of_model agroupM agroupM_ok script hwf.ag g i p hile hp
       refine ⟨ls, b ++ [hh] ++ a, ?_, by simp [h2]⟩
       simp only [routeInfo, hi]
       show (genLevels agroupC script (g + 1) g i).bind _ = _
@@ -1308,7 +1304,7 @@ theorem routeInfo_of_model (script : List Op) (hwf : WF script) (i : Nat) (op : 
       obtain ⟨r', ver⟩ := x
       simp [routeRecOf, hp, hv] at hrec
       obtain ⟨rfl, rfl⟩ := hrec
-      obtain ⟨ri, rop, ls, h1, h2, h3, h4, h5⟩ := genLevels_of_model avgroupM avgroupM_ok script hwf.avg vg i p hile hp
+      obtain ⟨ri, rop, ls, h1, h2, h3, h4, h5, _⟩ := genLevels_of_model avgroupM avgroupM_ok script hwf.avg vg i p hile hp
       have hril := lt_of_getElem? h3
       refine ⟨ls, b ++ [hh] ++ a, ?_, by simp [h2]⟩
       simp only [routeInfo, hi]
@@ -1355,37 +1351,36 @@ theorem usesB_split (script : List Op) (sel : Op → Option (List Hid)) (i treg 
   · exact ⟨[], by simp, List.nil_sublist _⟩
   · obtain ⟨k, rfl⟩ : ∃ k, treg = (i + 1) + k := ⟨treg - (i + 1), by omega⟩
     refine ⟨(((script.drop (i + 1)).take k).filterMap sel).flatten, ?_, ?_⟩
-    · simp only [usesB, List.take_add, List.filterMap_append, List.flatten_append]
-      have : script.take 1 |>.length ≥ 0 := Nat.zero_le _
+    · have hopi : script[i] = op := by
+        have := List.getElem?_eq_getElem hil
+        rw [this] at hi; exact Option.some.inj hi
+      simp only [usesB, List.take_add, List.filterMap_append, List.flatten_append]
       have h1 : (List.take 1 (List.drop i script)).filterMap sel = [] := by
-        rw [List.take_one_drop_eq_of_lt_length hil]
-        have : script[i] = op := by
-          have := List.getElem?_eq_getElem hil
-          rw [this] at hi; exact Option.some.inj hi
-        simp [this, hsel]
+        rw [List.drop_eq_getElem_cons hil, List.take_succ_cons, List.take_zero]
+        simp [hopi, hsel]
       rw [h1]; simp
-    · exact sublist_flatten ((List.take_sublist k _).filterMap sel)
+    · exact sublist_flatten ((List.take_sublist k (script.drop (i + 1))).filterMap sel)
 
-theorem routeRecOf_exists (script : List Op) (hwf : WF script) (hnm : NoMount script) (i : Nat) (op : Op)
+theorem routeRecOf_exists (script : List Op) (hwf : WF script) (i : Nat) (op : Op)
     (hi : script[i]? = some op) (hseg : (routeSeg op).isSome) :
-    ∃ r rec0, routeRecOf (W script i) op = some (r, rec0) := by
+    (routeRecOf (W script i) op).isSome = true := by
   have hil := lt_of_getElem? hi
   have hile : i ≤ script.length := Nat.le_of_lt hil
   have hown := hwf.own i op hi
   cases op with
   | route o seg hs =>
     cases o with
-    | router r => exact ⟨r, _, rfl⟩
+    | router r => rfl
     | group g =>
       simp only [] at hown
       have hlen := (ginv groupM groupM_ok script hwf.g i hile).1
       have : g < (W script i).groups.length := by rw [show (W script i).groups.length = _ from hlen]; exact hown
-      exact ⟨_, _, by simp [routeRecOf, List.getElem?_eq_getElem this]⟩
+      simp [routeRecOf, List.getElem?_eq_getElem this]
     | vrouter v =>
       simp only [] at hown
       have hlen := (ainv vrouterA vrouterA_ok script i hile).1
       have : v < (W script i).vrouters.length := by rw [show (W script i).vrouters.length = _ from hlen]; exact hown
-      exact ⟨_, _, by simp [routeRecOf, List.getElem?_eq_getElem this]⟩
+      simp [routeRecOf, List.getElem?_eq_getElem this]
     | vgroup vg =>
       simp only [] at hown
       have hlen := (ainv vgroupA vgroupA_ok script i hile).1
@@ -1398,37 +1393,239 @@ theorem routeRecOf_exists (script : List Op) (hwf : WF script) (hnm : NoMount sc
         have hlenv := (ainv vrouterA vrouterA_ok script i hile).1
         have hmono := cnt_mono isVRouterCreate script j i (Nat.le_of_lt g2)
         have hv : v < (W script i).vrouters.length := by
-          rw [show (W script i).vrouters.length = _ from hlenv]; omega
-        refine ⟨_, _, ?_⟩
+          rw [show (W script i).vrouters.length = cnt isVRouterCreate script i from hlenv]; omega
         simp only [routeRecOf, List.getElem?_eq_getElem hvg, Option.bind_some]
         rw [← g4]
         simp [List.getElem?_eq_getElem hv]
   | aroute o seg b hh a =>
     cases o with
-    | app => exact ⟨0, _, rfl⟩
+    | app => rfl
     | agroup g =>
       simp only [] at hown
       have hlen := (ginv agroupM agroupM_ok script hwf.ag i hile).1
       have : g < (W script i).agroups.length := by rw [show (W script i).agroups.length = _ from hlen]; exact hown
-      exact ⟨_, _, by simp [routeRecOf, List.getElem?_eq_getElem this]⟩
+      simp [routeRecOf, List.getElem?_eq_getElem this]
     | avgroup vg =>
       simp only [] at hown
       have hlen := (ginv avgroupM avgroupM_ok script hwf.avg i hile).1
       have hvg : vg < (W script i).avgroups.length := by
         rw [show (W script i).avgroups.length = _ from hlen]; exact hown
-      obtain ⟨ri, rop, ls, h1, h2, h3, h4, h5⟩ := genLevels_of_model avgroupM avgroupM_ok script hwf.avg vg i _ hile
+      obtain ⟨ri, rop, ls, h1, h2, h3, h4, h5, h6⟩ := genLevels_of_model avgroupM avgroupM_ok script hwf.avg vg i _ hile
         (List.getElem?_eq_getElem hvg)
-      -- the root `app.Version` call at `ri` also created version router number `owner`
+      -- the root `app.Version` call at `ri < i` also created version router number `owner`
       have hril := lt_of_getElem? h3
-      have hri_lt : ri < i := by
-        -- the root ancestor was created before the route is declared: its creation index is below `i`
-        rcases Nat.lt_or_ge ri i with h | h
-        · exact h
-        · exfalso
-          -- `genLevels` only reads creating ops found by `nthIdx` through the model's groups, all `< i`
-          have hlenri := (ainv vrouterA vrouterA_ok script i hile).1
-          sorry
-      sorry
-  | _ => simp [routeSeg] at hseg
+      have hlenv := (ainv vrouterA vrouterA_ok script i hile).1
+      have hlenri := (ainv vrouterA vrouterA_ok script ri (Nat.le_of_lt hril)).1
+      have hopri : script[ri] = rop := by
+        have := List.getElem?_eq_getElem hril
+        rw [this] at h3; exact Option.some.inj h3
+      have hcr : isVRouterCreate rop = true := by
+        cases rop <;> simp [avgroupM, avgroupC] at h4
+        rfl
+      have hsucc := cnt_succ isVRouterCreate script ri hril
+      rw [hopri, hcr] at hsucc
+      have hmono := cnt_mono isVRouterCreate script (ri + 1) i h6
+      have hv : (W script i).avgroups[vg].owner < (W script i).vrouters.length := by
+        rw [h5]
+        simp only [avgroupM]
+        rw [show (W script i).vrouters.length = cnt isVRouterCreate script i from hlenv,
+            show (W script ri).vrouters.length = cnt isVRouterCreate script ri from hlenri]
+        simp at hsucc; omega
+      simp [routeRecOf, List.getElem?_eq_getElem hvg, List.getElem?_eq_getElem hv]
+  | _ => simp [routeSeg, routeSegOf] at hseg
+
+theorem routeRecOf_not_use (w : World) (op : Op) (x : Nat × RouteRec) (h : routeRecOf w op = some x) :
+    ∀ r, selUse r op = none := by
+  intro r
+  cases op <;> first | rfl | (simp [routeRecOf] at h)
+
+/-- **Soundness of the composition model (scripts without `Mount`).** For every well-formed
+    configuration script over `Use`, `Group`, nested `Group`, `Group.Use`, `Version`, version groups,
+    `Warmup`, further routers, and the whole app layer (`app.Use/Group/Version`, their `Use`/`Group`,
+    `WithBefore`/`WithAfter`), and every route of the serving router: the handler slice the model
+    composes exists and is admitted by the oracle's levels — router-global first, then the groups
+    from the outermost to the innermost, then the route's own handlers; everything attached to an
+    enclosing scope before the route (or the nested scope) was declared is there, in attach order;
+    nothing from any other scope is. -/
+theorem compose_admitted_nomount (script : List Op) (hnm : NoMount script) (hwf : WF script) (i : Nat)
+    (ver : Option Nat) (path : Path) (ls : List Level)
+    (hl : levels script { mounts := [], route := i } = some (ver, path, ls)) :
+    ∃ chain, compose script ver path = some chain ∧ matchLevels ls chain = true := by
+  simp only [levels] at hl
+  cases hri : routeInfo script i with
+  | none => simp [hri] at hl
+  | some x =>
+    obtain ⟨rr, ver', path0, gls, hs⟩ := x
+    simp only [hri, Option.bind_eq_bind, Option.bind_some, mountLevels] at hl
+    by_cases h0 : 0 = rr
+    · subst h0
+      simp only [if_true, Option.bind_some, Option.some.injEq, Prod.mk.injEq, List.nil_append] at hl
+      obtain ⟨rfl, rfl, rfl⟩ := hl
+      -- the declaring op
+      cases hop : script[i]? with
+      | none => simp [routeInfo, hop] at hri
+      | some op =>
+        have hseg : (routeSeg op).isSome = true := by
+          cases op <;> first | rfl | (simp [routeInfo, hop] at hri)
+        have hex := routeRecOf_exists script hwf i op hop hseg
+        obtain ⟨⟨r, rec0⟩, hrec⟩ := Option.isSome_iff_exists.mp hex
+        obtain ⟨gls', hs', hinfo, hhs⟩ := routeInfo_of_model script hwf i op r rec0 hop hrec
+        rw [hri] at hinfo
+        simp only [Option.some.injEq, Prod.mk.injEq] at hinfo
+        obtain ⟨e1, e2, e3, e4, e5⟩ := hinfo
+        subst e1 e2 e3 e4 e5
+        have hil := lt_of_getElem? hop
+        -- router 0 at the end of the script
+        have hlen := routers_length script hnm script.length (Nat.le_refl _)
+        have h0lt : 0 < (W script script.length).routers.length := by omega
+        have hrs0 : (W script script.length).routers[0]? = some (W script script.length).routers[0] :=
+          List.getElem?_eq_getElem h0lt
+        generalize (W script script.length).routers[0] = rs0 at hrs0
+        have hinv := rinv script hnm hwf.r script.length (Nat.le_refl _) 0 rs0 hrs0
+        have hcomp : compose script rec0.ver rec0.path = findRoute (warmup rs0).tree rec0.ver rec0.path := by
+          unfold compose
+          rw [← W_full, hrs0]
+        -- the tree after the final warm-up
+        have htree : ∀ rec ∈ (warmup rs0).tree, ∃ i' op' rec0' treg, script[i']? = some op' ∧ i' ≤ treg ∧
+            routeRecOf (W script i') op' = some (0, rec0') ∧ rec = regRec script 0 treg rec0' := by
+          intro rec hr
+          unfold warmup at hr
+          by_cases hw : rs0.warmed = true
+          · simp only [hw, if_true] at hr
+            obtain ⟨i', op', rec0', treg, a1, _, a3, _, a5, a6⟩ := hinv.tree rec hr
+            exact ⟨i', op', rec0', treg, a1, a3, a5, a6⟩
+          · have hw' : rs0.warmed = false := by simpa using hw
+            simp only [hw', Bool.false_eq_true, if_false] at hr
+            rw [foldl_register] at hr
+            simp only [List.mem_append, List.mem_map] at hr
+            rcases hr with hr | ⟨rt, hrt, rfl⟩
+            · obtain ⟨i', op', rec0', treg, a1, _, a3, _, a5, a6⟩ := hinv.tree rec hr
+              exact ⟨i', op', rec0', treg, a1, a3, a5, a6⟩
+            · obtain ⟨i', op', a1, a2, a3⟩ := hinv.pend rt hrt
+              exact ⟨i', op', rt, script.length, a1, by omega, a3, by simp [regRec, hinv.mw]⟩
+        have hpres : ∃ treg, i ≤ treg ∧ regRec script 0 treg rec0 ∈ (warmup rs0).tree := by
+          have h0i : 0 < (W script i).routers.length := by
+            have := routers_length script hnm i (Nat.le_of_lt hil); omega
+          unfold warmup
+          by_cases hw : rs0.warmed = true
+          · simp only [hw, if_true]
+            rcases hinv.pres i op rec0 hop hil hrec h0i with hp | ⟨treg, a, _, c⟩
+            · rw [hinv.warmed hw] at hp; simp at hp
+            · exact ⟨treg, a, c⟩
+          · have hw' : rs0.warmed = false := by simpa using hw
+            simp only [hw', Bool.false_eq_true, if_false]
+            rw [foldl_register]
+            rcases hinv.pres i op rec0 hop hil hrec h0i with hp | ⟨treg, a, _, c⟩
+            · refine ⟨script.length, Nat.le_of_lt hil, ?_⟩
+              simp only [List.mem_append, List.mem_map]
+              exact Or.inr ⟨rec0, hp, by simp [regRec, hinv.mw]⟩
+            · exact ⟨treg, a, by simp only [List.mem_append]; exact Or.inl c⟩
+        -- what `findRoute` returns
+        obtain ⟨treg0, _, hmem0⟩ := hpres
+        have hfind : ∃ y, (warmup rs0).tree.reverse.find? (fun rt => rt.ver == rec0.ver && rt.path == rec0.path) = some y := by
+          cases hf : (warmup rs0).tree.reverse.find? (fun rt => rt.ver == rec0.ver && rt.path == rec0.path) with
+          | some y => exact ⟨y, rfl⟩
+          | none =>
+            have := List.find?_eq_none.mp hf (regRec script 0 treg0 rec0) (by simpa using hmem0)
+            simp [regRec] at this
+        obtain ⟨y, hy⟩ := hfind
+        have hyp := List.find?_some hy
+        have hymem : y ∈ (warmup rs0).tree := by simpa using List.mem_of_find?_eq_some hy
+        obtain ⟨i', op', rec0', treg, b1, b2, b3, b4⟩ := htree y hymem
+        simp only [Bool.and_eq_true, beq_iff_eq] at hyp
+        have hpath : rec0'.path = rec0.path := by rw [← hyp.2, b4]; rfl
+        obtain ⟨sg, c1, c2⟩ := routeRecOf_seg _ _ _ _ hrec
+        obtain ⟨sg', c1', c2'⟩ := routeRecOf_seg _ _ _ _ b3
+        have hsg : sg' = sg := by rw [hpath, c2] at c2'; exact (Option.some.inj c2').symm
+        subst hsg
+        have hii : i' = i := hwf.segs i' i op' op sg' b1 hop c1' c1
+        subst hii
+        rw [hop] at b1
+        cases b1
+        rw [hrec] at b3
+        cases b3
+        -- the chain and its admission
+        refine ⟨y.hs, by rw [hcomp]; simp [findRoute, hy], ?_⟩
+        obtain ⟨mid, hmid, hsub⟩ := usesB_split script (selUse 0) i' treg op hop
+          (routeRecOf_not_use _ _ _ hrec 0) b2
+        rw [b4]
+        show matchLevels ([routerLevel script 0 i'] ++ gls ++ [(hs, [])]) (usesB script (selUse 0) treg ++ rec0.hs) = true
+        rw [hmid, hhs, routerLevel_eq, splitAt_eq]
+        have := matchLevels_cons (usesB script (selUse 0) i') _ mid _ (gls ++ [(hs, [])]) hsub
+          (matchLevels_musts gls hs)
+        simpa [usesB, List.append_assoc] using this
+    · simp [h0] at hl
+
+/-! ### the Boolean well-formedness check implies `WF` -/
+
+theorem classRefsOK_spec (C : GClass) (script : List Op) (t : Nat) (op : Op) (h : classRefsOK C script t op = true) :
+    (∀ p seg hs, C.sub op = some (p, seg, hs) → p < cnt C.isC script t) ∧
+    (∀ g hs, C.useOp op = some (g, hs) → g < cnt C.isC script t) := by
+  simp only [classRefsOK, Bool.and_eq_true] at h
+  constructor
+  · intro p seg hs hsb
+    have := h.1
+    rw [hsb] at this
+    simpa using this
+  · intro g hs hu
+    have := h.2
+    rw [hu] at this
+    simpa using this
+
+theorem wf_of_wfB (script : List Op) (h : wfB script = true) : WF script := by
+  simp only [wfB, Bool.and_eq_true, List.all_eq_true, List.mem_range] at h
+  obtain ⟨h1, h2⟩ := h
+  have hop : ∀ t op, script[t]? = some op → opRefsOK script t op = true := by
+    intro t op ht
+    have := h1 t (lt_of_getElem? ht)
+    rw [ht] at this
+    exact this
+  refine ⟨?_, ?_, ?_, ?_, ?_, ?_⟩
+  · intro t op ht
+    have := hop t op ht
+    simp only [opRefsOK, Bool.and_eq_true] at this
+    exact classRefsOK_spec groupC script t op this.1.1.1
+  · intro t op ht
+    have := hop t op ht
+    simp only [opRefsOK, Bool.and_eq_true] at this
+    exact classRefsOK_spec agroupC script t op this.1.1.2
+  · intro t op ht
+    have := hop t op ht
+    simp only [opRefsOK, Bool.and_eq_true] at this
+    exact classRefsOK_spec avgroupC script t op this.1.2
+  · intro t op ht r hs hsel
+    have := hop t op ht
+    simp only [opRefsOK, Bool.and_eq_true] at this
+    have h4 := this.2
+    cases op <;> simp [selUse] at hsel
+    case use r' hs' =>
+      obtain ⟨rfl, _⟩ := hsel
+      simpa using h4
+    case ause hs' =>
+      obtain ⟨rfl, _⟩ := hsel
+      omega
+  · intro i j opi opj sg hi hj si sj
+    have := h2 i (lt_of_getElem? hi) j (lt_of_getElem? hj)
+    rw [hi, hj] at this
+    simp only [Option.bind_some, show routeSegOf opi = some sg from si, show routeSegOf opj = some sg from sj,
+      Bool.or_eq_true, beq_iff_eq] at this
+    rcases this with h' | h'
+    · exact h'
+    · simp at h'
+  · intro t op ht
+    have := hop t op ht
+    simp only [opRefsOK, Bool.and_eq_true] at this
+    have h4 := this.2
+    cases op with
+    | route o seg hs => cases o <;> simp_all
+    | aroute o seg b hh a => cases o <;> simp_all
+    | vgroup v seg hs => simpa using h4
+    | _ => trivial
+
+theorem noMount_of_noMountB (script : List Op) (h : noMountB script = true) : NoMount script := by
+  intro op hop
+  simp only [noMountB, List.all_eq_true] at h
+  have := h op hop
+  simpa using this
 
 end Rivaas.Compose
